@@ -131,7 +131,15 @@ func report(id string, spec *CheckSpec, o runOpts, results []*unitResult, known 
 				}
 			}
 		}
-		unitInfo = append(unitInfo, map[string]any{"unit": r.unit.Name, "package": r.unit.Pkg, "cases": r.nCases, "paths": up, "load_s": round2(r.load.Seconds())})
+		ui := map[string]any{"unit": r.unit.Name, "package": r.unit.Pkg, "cases": r.nCases, "paths": up, "load_s": round2(r.load.Seconds())}
+		if st, ok := genStates[r.unit.Name]; ok {
+			ui["generated_packages_accepted"] = len(st.accepted)
+			ui["specs_rejected_by_generator"] = uniqStrings(st.rejected, 5)
+			if r.unit.genBounds != nil {
+				ui["bounds"] = r.unit.genBounds
+			}
+		}
+		unitInfo = append(unitInfo, ui)
 	}
 	for _, v := range unconf {
 		inconclusive = append(inconclusive, fmt.Sprintf("engine-mismatch: model for %q in %s did not reproduce natively (vector %s)", v.Msg, v.Case, vecStr(v.Vector)))
